@@ -95,6 +95,27 @@ Proof.
   - left. split; auto. congruence.
 Qed.
 
+(* ---- the zero-check and the park are ONE critical section: a Wait that has found the counter non-zero and is on
+   its way into cond.Wait() (state Parking) still holds the mutex, the counter is still non-zero, and no step of any
+   other thread can change the counter before it is registered on the wait list *)
+Lemma wait_check_and_park_atomic_lemma p s t :
+  wg_reachable p s -> is_wait (p t) = true -> thr s t = Parking ->
+  lock s = Some t /\ dat s <> 0 /\
+  (forall l s', wg_mstep p s l s' -> dat s' = dat s /\ (thr s' t = Parking \/ (l = LPark t /\ thr s' t = Parked))).
+Proof.
+  intros R Hw Hs. pose proof (mon_mutex _ _ _ _ _ _ R) as M.
+  assert (HL : lock s = Some t) by (apply M; rewrite Hs; reflexivity).
+  split; [exact HL|]. split; [apply (wait_released_at_zero_lemma p s t R Hw); auto|].
+  assert (HX : forall u b, thr s u = InCrit b -> False).
+  { intros u b E. assert (u = t) by (apply (mutex_two Z s); auto; [rewrite E|rewrite Hs]; reflexivity).
+    subst. congruence. }
+  intros l s' St. inversion St; subst; simpl;
+    try (exfalso; eapply HX; eassumption);
+    try (split; [reflexivity|]; unfold upd; destruct (Nat.eqb_spec t t0); subst; auto; congruence).
+  - split; [reflexivity|]. left. assumption.
+  - split; [reflexivity|]. left. destruct (wake_all_cases Z (wg_prog p) c (thr s) t) as [E|(E & _)]; congruence.
+Qed.
+
 (* ---- C14: the counter is the sum of the completed, non-panicking Adds (over schedules) *)
 Lemma wg_step_delta p s l s' : wg_mstep p s l s' -> dat s' = dat s + step_delta p (s, l).
 Proof.
